@@ -103,6 +103,15 @@ def execEntryOp (st : DState) (env : Env) (name : String) (args : List String) (
     | none => bad
   | "entry_replace_panic", [k, kid] =>
     no <| resOut (Map.entryReplacePanic cfg env (nat! k) (nat! kid) w) (fun b => if b then "occ" else "vac") w
+  | "entry_and_replace_panic", [k, kid] =>
+    no <| resOut (Map.entryReplacePanic cfg env (nat! k) (nat! kid) w) (fun b => if b then "occ" else "vac") w
+  | "entry_or_insert_with_panic", [k, kid] =>
+    no <| resOut (Map.entryOrInsertWithPanic cfg env (nat! k) (nat! kid) w) (fun b => if b then "occ" else "vac") w
+  | "entry_and_modify_panic", [k, kid] =>
+    no <| resOut (Map.entryAndModifyPanic cfg env (nat! k) (nat! kid) w) (fun b => if b then "occ" else "vac") w
+  | "raw_replace_panic", [mode, k, _] =>
+    let m : Map.RawMode := if mode == "raw_from_key" then .fromKey else if mode == "raw_from_key_hashed" then .fromKeyHashed else .fromHash
+    no <| resOut (Map.rawReplacePanic cfg env m (planHash st (nat! k)) (nat! k) w) (fun b => if b then "occ" else "vac") w
   | "try_insert", [k, kid, vid, v] =>
     no <| resOut (Map.tryInsert cfg env ⟨nat! k, nat! kid, nat! vid, nat! v⟩ w) (fmtEnt ids "ok" "err") w
   | "raw_from_key", k :: chain =>
